@@ -163,6 +163,73 @@ pub fn repo_root() -> std::path::PathBuf {
     std::path::PathBuf::from("/repo")
 }
 
+/// assumption check for the schedule explorer (DESIGN §2.3): scans the repository's non-test sources for shared-state
+/// and synchronisation primitives. the hook sees the `Mutex` / `File` uses of four files (through their cfg twin imports);
+/// anything else that could be shared between workers is listed, so that a new unhooked primitive shows up in the
+/// evidence instead of silently narrowing what the explorer can see. never a verdict.
+pub fn scan_shared_state() -> String {
+    let hooked = ["float_cache_policy.rs", "response_sink.rs", "response_output_policy.rs", "compass_app.rs"];
+    let needles = ["unsafe ", "unsafe{", "static mut", "Atomic", "RwLock", "Mutex", "RefCell", "UnsafeCell", "thread_local", "lazy_static", "OnceCell", "OnceLock", "Condvar", "mpsc::"];
+    let mut hooked_sites = 0usize;
+    let mut bypass: Vec<String> = vec![];
+    let mut other: Vec<String> = vec![];
+    fn walk(dir: &std::path::Path, out: &mut Vec<std::path::PathBuf>) {
+        if let Ok(rd) = std::fs::read_dir(dir) {
+            for e in rd.filter_map(|e| e.ok()) {
+                let p = e.path();
+                if p.is_dir() {
+                    if p.file_name().map_or(false, |n| n == "target") {
+                        continue;
+                    }
+                    walk(&p, out);
+                } else if p.extension().map_or(false, |x| x == "rs") {
+                    out.push(p);
+                }
+            }
+        }
+    }
+    let mut files = vec![];
+    for krate in ["routee-compass-core", "routee-compass", "routee-compass-powertrain"] {
+        walk(&repo_root().join("rust").join(krate).join("src"), &mut files);
+    }
+    files.sort();
+    for f in files.iter() {
+        let name = f.file_name().map(|n| n.to_string_lossy().to_string()).unwrap_or_default();
+        if name == "verif_sync.rs" {
+            continue;
+        }
+        let text = std::fs::read_to_string(f).unwrap_or_default();
+        for (ln, line) in text.lines().enumerate() {
+            let t = line.trim_start();
+            if t.starts_with("//") {
+                continue;
+            }
+            if !needles.iter().any(|n| line.contains(n)) && !(t.starts_with("static ") || t.starts_with("pub static ")) {
+                continue;
+            }
+            let site = format!("{}:{}", f.strip_prefix(repo_root()).unwrap_or(f).display(), ln + 1);
+            if hooked.contains(&name.as_str()) {
+                // a fully qualified std primitive inside a hooked file bypasses the twin import
+                if line.contains("std::sync::Mutex") && !t.starts_with("use ") && !t.starts_with("sync::") {
+                    bypass.push(site);
+                } else {
+                    hooked_sites += 1;
+                }
+            } else {
+                other.push(site);
+            }
+        }
+    }
+    format!(
+        "source scan of {} files: {} lines mention a shared-state or synchronisation primitive inside the four hooked files; fully qualified std primitives there (bypassing the hook): {:?}; lines elsewhere: {:?}{}",
+        files.len(),
+        hooked_sites,
+        bypass,
+        other,
+        if other.iter().all(|s| s.contains("read_only_lock.rs") || s.contains("onnx")) { " (read_only_lock.rs is not used by any other module; the onnx model is behind a feature that is off)" } else { " - WARNING: review these sites, the explorer cannot see them" }
+    )
+}
+
 /// parses the known findings file. format, one entry per line:
 ///   finding: property=<id> signature=<component>/<clause> what=<free text>
 ///   fixed: property=<id> <commit> <what failed>
